@@ -8,7 +8,6 @@ import (
 	"strings"
 	"sync"
 
-	"deps.dev/util/semver"
 	"verif/harness/ev"
 	"verif/harness/ref"
 )
@@ -333,8 +332,13 @@ func (g *mgen) sweep() []markerCase {
 // oracle + comparison
 
 type verInfo struct {
-	Norm string `json:"norm"`
-	Pre  bool   `json:"pre"`
+	Norm    string `json:"norm"`
+	Pre     bool   `json:"pre"` // pre- or dev-release
+	Post    bool   `json:"post"`
+	Dev     bool   `json:"dev"`
+	Local   string `json:"local"`
+	Epoch   int    `json:"epoch"`
+	Release []int  `json:"release"`
 }
 
 // markerDomain decides structurally whether a marker is inside the atom
@@ -398,32 +402,6 @@ func markerDomain(atoms []atom, extras []string, env map[string]string, vi map[s
 		return "multi-extra"
 	}
 	return ""
-}
-
-// inVersionLike reports whether some in / not in atom has two sides that the
-// library's own version parser accepts (semver.PyPI.Parse) - the shape of the
-// defect "in / not in handed to ParseConstraint".
-func inVersionLike(atoms []atom, env map[string]string) bool {
-	for _, a := range atoms {
-		if a.Op != "in" && a.Op != "not in" {
-			continue
-		}
-		if a.L.Var && a.L.Text == "extra" || a.R.Var && a.R.Text == "extra" {
-			continue
-		}
-		val := func(o operand) string {
-			if o.Var {
-				return env[o.Text]
-			}
-			return o.Text
-		}
-		_, errL := semver.PyPI.Parse(val(a.L))
-		_, errR := semver.PyPI.Parse(val(a.R))
-		if errL == nil && errR == nil {
-			return true
-		}
-	}
-	return false
 }
 
 func distinctSorted(ss []string) []string {
@@ -593,14 +571,18 @@ func checkMarkers(r *ev.Run, env map[string]string, cases []markerCase, origin s
 						report("C16:marker:panic", fmt.Sprintf("marker %q extras %v: resolver panics: %s", c.Marker, c.Extras, o.Panic), cs)
 					case o.Err != "":
 						cl := "C16:marker:resolver-error"
-						if inVersionLike(p.atoms, env) {
-							cl = "C16:marker:resolver-error:in-version-like"
+						if sh := explain(c.Marker, p.atoms, c.Extras, oi == 0, j.want, env, vi); sh != "" {
+							cl += ":" + sh
 						}
 						report(cl, fmt.Sprintf("marker %q extras %v: packaging evaluates to %v, resolver fails: %s", c.Marker, c.Extras, j.want, o.Err), cs)
 					case o.Shape != "":
 						r.Inconclusive(fmt.Sprintf("marker %q: unexpected graph shape: %s", c.Marker, o.Shape))
 					case o.Edge != j.want:
-						report(truthClass(p.atoms, env), fmt.Sprintf("marker %q extras %v: packaging evaluates to %v, resolver edge root->dep present=%v (%s)", c.Marker, c.Extras, j.want, o.Edge, path), cs)
+						cl := "C16:marker:truth"
+						if sh := explain(c.Marker, p.atoms, c.Extras, oi == 0, j.want, env, vi); sh != "" {
+							cl += ":" + sh
+						}
+						report(cl, fmt.Sprintf("marker %q extras %v: packaging evaluates to %v, resolver edge root->dep present=%v (%s)", c.Marker, c.Extras, j.want, o.Edge, path), cs)
 					}
 				}
 			}
@@ -721,50 +703,6 @@ func pickExtras(rng *rand.Rand) []string {
 		p := rng.Perm(len(extraNames))
 		return []string{extraNames[p[0]], extraNames[p[1]]}
 	}
-}
-
-// wildcardOrdered reports whether the marker has an atom `version-value op
-// "v.*"` with an ordered operator that, taken alone, the resolver decides
-// differently from packaging. packaging accepts a trailing .* only with == and
-// != and otherwise compares the two strings; the library hands the clause to
-// ParseConstraint. Used only to name the violation class narrowly.
-func wildcardOrdered(atoms []atom, env map[string]string) bool {
-	for _, a := range atoms {
-		if !a.L.Var || a.R.Var || a.L.Text == "extra" || !strings.HasSuffix(a.R.Text, ".*") {
-			continue
-		}
-		lv, rv := env[a.L.Text], a.R.Text
-		var want bool
-		switch a.Op {
-		case "<":
-			want = lv < rv
-		case "<=":
-			want = lv <= rv
-		case ">":
-			want = lv > rv
-		case ">=":
-			want = lv >= rv
-		default:
-			continue
-		}
-		_, errL := semver.PyPI.Parse(lv)
-		_, errR := semver.PyPI.Parse(rv)
-		if errL != nil || errR != nil {
-			continue
-		}
-		o := resolveMarker(a.L.Text+" "+a.Op+" '"+rv+"'", nil, true)
-		if o.Err == "" && o.Panic == "" && !o.Budget && o.Shape == "" && o.Edge != want {
-			return true
-		}
-	}
-	return false
-}
-
-func truthClass(atoms []atom, env map[string]string) string {
-	if wildcardOrdered(atoms, env) {
-		return "C16:marker:truth:wildcard-ordered"
-	}
-	return "C16:marker:truth"
 }
 
 // Observe resolves one marker and describes what the resolver did (debugging aid).
